@@ -136,6 +136,11 @@ func (env *ExecEnv) expand(word ast.Word, mode ExpMode) (fields []*field, err er
 				}
 				fields[len(fields)-1].join(s, true)
 			case `"`:
+				if len(env.Args) == 1 && onlyAt(w.Value) {
+					// "$@" generates zero fields when there are no
+					// positional parameters
+					break
+				}
 				word, err := env.expand(w.Value, mode&Arith|Quote)
 				if err != nil {
 					return nil, err
@@ -167,6 +172,28 @@ func (env *ExecEnv) expand(word ast.Word, mode ExpMode) (fields []*field, err er
 		}
 	}
 	return
+}
+
+// onlyAt reports whether word consists solely of expansions of the
+// positional parameters themselves ($@, ${@}, ${@-w}, ${@#p}, ...).
+func onlyAt(word ast.Word) bool {
+	for _, w := range word {
+		pe, ok := w.(*ast.ParamExp)
+		if !ok || pe.Name.Value != "@" {
+			return false
+		}
+		switch pe.Op {
+		case ":-", ":=", ":?", ":+", "+":
+			// the word, an error or the null string is substituted
+			return false
+		case "#":
+			if pe.Word == nil {
+				// the number of positional parameters
+				return false
+			}
+		}
+	}
+	return len(word) != 0
 }
 
 // expandTilde performs tilde expansion.
@@ -245,22 +272,6 @@ func (env *ExecEnv) expandParam(fields []*field, pe *ast.ParamExp, mode ExpMode)
 		switch len(env.Args) {
 		case 1:
 			null = true
-			switch pe.Op {
-			case ":-", ":=", ":?", ":+", "+":
-				// the word, an error or the null string is substituted
-			default:
-				if !quote {
-					break
-				}
-				// "$@" generates zero fields when there are no positional
-				// parameters: drop the empty quoted part that marks the
-				// enclosing double-quotes
-				f := fields[len(fields)-1]
-				if n := len(f.b); n > 0 && f.quote[n-1] && f.b[n-1] == "" {
-					f.b = f.b[:n-1]
-					f.quote = f.quote[:n-1]
-				}
-			}
 		case 2:
 			null = env.Args[1] == ""
 			fallthrough
